@@ -378,7 +378,19 @@ def run(ck):
   if getattr(ck, "replay", None):
     saved = json.load(open(ck.replay))["case"]
     if "trace" in saved:
-      validate_traces(ck, [saved["trace"]], "replay of " + ck.replay)
+      # the saved trace is what the code did when the violation was found (re-validated for the
+      # record); the verdict of the replay is that of a trace recorded from the code NOW
+      old = validate_traces(ck, [saved["trace"]], "saved trace", report=False)[0]
+      ck.cov["saved_trace_verdict"] = old["verdict"]
+      job = {"cfg": saved["trace"]["cfg"], "seed": 1, "nprobe": 24, "max_blocks": 10 ** 6}
+      r = core.run_workers("harness.workers.shapes_trace", [job], x64=True, work=ck.work)[0]
+      if r["machinery"]:
+        raise core.MachineryError(r["machinery"])
+      if r["err"]:
+        ck.violation(vkey(job["cfg"], "internal_error|" + r["err"]["error"].split(":")[0]),
+                     f"replay: {describe(job['cfg'])} raised {r['err']['error']}", {"job": job, "err": r["err"]})
+      else:
+        validate_traces(ck, [r["trace"]], "replay of " + ck.replay)
     elif "case" in saved:
       run_cases(ck, [saved["case"]], "replay of " + ck.replay)
     else:
